@@ -344,4 +344,31 @@ def concreteOk (syms : List Str) (t : Template) (data : Dict) : Bool :=
     | .lit _ => true
     | .ph k ex => ex == Re.star Cls.notSlash || !(syms.contains ((data.get k).getD [])))
 
+/-! ### ADDED: the hypotheses of C05 on one Sid, as one Boolean
+
+  `C05.Admissible` (Props/C05c.lean) lists what C05 asks of a Sid `x` with path `p`, each field
+  decidable.  `admissibleB` is their conjunction as a Boolean (with the template and the `key_types`
+  entry looked up), so that a driver can EVALUATE it and the kernel can decide it in one go:
+  `C05.admissible_of_B` turns `admissibleB … = true` into `Admissible`. -/
+
+def nodupStr : List Str → Bool
+  | [] => true
+  | k :: ks => !ks.contains k && nodupStr ks
+
+def admissibleB (c : Ctx) (pc : PathConf) (x : Sid) (p : Str) : Bool :=
+  match pc.resolver.lookup x.type,
+        c.cfg.sid.keyTypes.lookup (((Str.splitStr x.type c.cfg.sid.sep).head?).getD []) with
+  | some t, some kts =>
+    (kts.filter (fun k => (Template.keys t).contains k) == x.fields.map (·.1)) &&
+    nodupStr (x.fields.map (·.1)) &&
+    (Ctx.mapToSid pc (Ctx.pathData pc x.fields []) == x.fields) &&
+    valuesOk c.env t (Ctx.pathData pc x.fields (Template.keys t)) &&
+    concreteOk c.cfg.sid.searchSymbols t (Ctx.pathData pc x.fields (Template.keys t)) &&
+    (Template.format t (Ctx.pathData pc x.fields (Template.keys t)) == some p) &&
+    (match c.dictToSidStr x.fields x.type with
+      | .ok s => s == x.string
+      | .error _ => false) &&
+    !x.string.isEmpty
+  | _, _ => false
+
 end Spec
